@@ -514,6 +514,8 @@ class StructureVisitor(ASTTemplate):
                 comps[name] = comp
         if is_count:
             comps["int_var"] = self._make_comp("int_var", Integer)
+        # Viral attributes are propagated across the group (issue #877).
+        comps.update(self._viral_dict(ds))
         return Dataset(name=ds.name, components=comps, data=None)
 
     def _build_udo_bindings(
@@ -576,6 +578,11 @@ class StructureVisitor(ASTTemplate):
     def _identifiers_dict(ds: Dataset) -> Dict[str, Component]:
         """Return a new dict containing only the identifier components of ``ds``."""
         return {n: c for n, c in ds.components.items() if c.role == Role.IDENTIFIER}
+
+    @staticmethod
+    def _viral_dict(ds: Dataset) -> Dict[str, Component]:
+        """Return a new dict containing only the viral attribute components of ``ds``."""
+        return {n: c for n, c in ds.components.items() if c.role == Role.VIRAL_ATTRIBUTE}
 
     def _add_error_measures(
         self,
@@ -734,6 +741,10 @@ class StructureVisitor(ASTTemplate):
         for name, comp in right_ds.components.items():
             if comp.role == Role.IDENTIFIER and name not in comps:
                 comps[name] = comp
+        # Viral attributes of either operand are propagated to the result (issue #877).
+        for name, comp in {**self._viral_dict(right_ds), **self._viral_dict(left_ds)}.items():
+            if name not in comps:
+                comps[name] = comp
 
         return Dataset(name=left_ds.name, components=comps, data=None)
 
@@ -782,6 +793,9 @@ class StructureVisitor(ASTTemplate):
         }
         for col_name in measure_names:
             comps[col_name] = self._make_comp(col_name, Number)
+        # Viral attributes are propagated across the group (issue #877).
+        for name, comp in self._viral_dict(input_ds).items():
+            comps.setdefault(name, comp)
 
         return Dataset(name=input_ds.name, components=comps, data=None)
 
@@ -805,6 +819,7 @@ class StructureVisitor(ASTTemplate):
         """Replace all measures with a single ``bool_var`` Boolean measure."""
         comps = self._identifiers_dict(ds)
         comps["bool_var"] = self._make_comp("bool_var", Boolean)
+        comps.update(self._viral_dict(ds))
         return Dataset(name=ds.name, components=comps, data=None)
 
     def _build_rename_structure(self, node: AST.RegularAggregation) -> Optional[Dataset]:
